@@ -361,6 +361,17 @@ func (p *proxy) resetClient() {
 	}
 }
 
+// closeClientSide closes the proxy's end of the client's connection in the orderly way (FIN, no reset): the client's
+// socket goes to CLOSE_WAIT, which is what a peer that shuts down or restarts cleanly leaves behind.
+func (p *proxy) closeClientSide() {
+	p.mu.Lock()
+	c := p.cconn
+	p.mu.Unlock()
+	if c != nil {
+		_ = c.Close()
+	}
+}
+
 func (p *proxy) shutdown() {
 	_ = p.ln.Close()
 	p.mu.Lock()
